@@ -7,6 +7,14 @@ SPEC = ROOT + '/spec'
 HARNESS = ROOT + '/harness'
 BIN = HARNESS + '/target/release/mlverif'
 WORK = ROOT + '/work'
+# Isolated mode (development aid for seeded changes, never used by the registered commands): VERIF_REPO=<checkout with the
+# change applied> VERIF_ISO=<name> builds the harness against that checkout (cargo `paths` override) into its own target and
+# work directories, so /repo is not touched and several changes can be tried in parallel.
+ALT_REPO = os.environ.get('VERIF_REPO')
+ISO = os.environ.get('VERIF_ISO')
+if ALT_REPO and ISO:
+    WORK = '/tmp/seedwork/' + ISO
+    BIN = '/tmp/seedtarget/' + ISO + '/release/mlverif'
 TLC_CP = '/opt/veriftools/tla/tla2tools.jar:/opt/veriftools/tla/CommunityModules-deps.jar'
 
 
@@ -40,7 +48,10 @@ def sh(cmd, cwd=None, env=None, timeout=None, out=None):
 
 def build():
     """Rebuild the harness; the path dependency makes cargo rebuild the library from /repo's working tree."""
-    rc, out = sh(['cargo', 'build', '--release', '--offline'], cwd=HARNESS, timeout=1200)
+    cmd = ['cargo', 'build', '--release', '--offline']
+    if ALT_REPO and ISO:
+        cmd += ['--config', 'paths=["%s"]' % ALT_REPO, '--target-dir', '/tmp/seedtarget/' + ISO]
+    rc, out = sh(cmd, cwd=HARNESS, timeout=1200)
     if rc != 0:
         log(out[-4000:])
         raise ToolError('cargo build failed')
